@@ -647,28 +647,56 @@ pub fn replay<U: CircuitUni>(ctx: &Ctx, body: &Value) -> i32 {
 /// Merkle-path row and a don't-care elsewhere; a direction bit set to 2 is illegal on every row.
 pub fn npo_cells_run(ctx: &Ctx, idx: u64, out: &mut RunOut) {
     use crate::props::{c08, c10};
-    use p3_circuit::ops::{NpoTypeId, Poseidon2Config, Poseidon2Trace};
-    type U = crate::uni::Kb4;
-    type BF = <U as CircuitUni>::BF;
+    use p3_circuit::ops::Poseidon2Config;
     let mut rng = Rng::new(ctx.seed, "C04-npo", idx);
-    let family = ["a2", "a4", "raw"][(idx / 4 % 3) as usize];
+    let family = ["a2", "a4", "raw", "q5"][(idx / 4 % 4) as usize];
     let hs = mix(mix(ctx.seed, idx), 0x6e63);
     foldhash::sim::set_seed(hs);
-    let (built, p2cfg, desc): (Result<_, String>, Poseidon2Config, Value) = match family {
-        "a2" | "a4" => {
+    match family {
+        "a2" | "a4" | "q5" => {
             let uni = if family == "a4" { "U-KB4-A4" } else { "U-KB4" };
             let shape = c08::draw_shape(&mut rng, uni, ctx.tier);
             let max_h = shape.dims.iter().map(|d| d.0).max().unwrap();
             let index = rng.usize_below(max_h);
-            let b = crate::core::pool::observe(|| if family == "a4" { c08::kb4a4::build_and_run(&shape, index) } else { c08::kb4::build_and_run(&shape, index) }).unwrap_or_else(Err);
-            (b, if family == "a4" { Poseidon2Config::KOALA_BEAR_D4_W32 } else { Poseidon2Config::KOALA_BEAR_D4_W16 }, json!({"shape": shape, "index": index}))
+            let desc = json!({"shape": shape, "index": index});
+            match family {
+                "a4" => {
+                    let b = crate::core::pool::observe(|| c08::kb4a4::build_and_run(&shape, index)).unwrap_or_else(Err);
+                    npo_cells_core::<crate::uni::Kb4>(ctx, idx, family, b, Poseidon2Config::KOALA_BEAR_D4_W32, desc, &|s, i| c08::kb4a4::build_and_run(s, i), &mut rng, out)
+                }
+                "q5" => {
+                    let b = crate::core::pool::observe(|| c08::kb5q::build_and_run(&shape, index)).unwrap_or_else(Err);
+                    npo_cells_core::<crate::uni::Kb5q>(ctx, idx, family, b, Poseidon2Config::KOALA_BEAR_D1_W16, desc, &|s, i| c08::kb5q::build_and_run(s, i), &mut rng, out)
+                }
+                _ => {
+                    let b = crate::core::pool::observe(|| c08::kb4::build_and_run(&shape, index)).unwrap_or_else(Err);
+                    npo_cells_core::<crate::uni::Kb4>(ctx, idx, family, b, Poseidon2Config::KOALA_BEAR_D4_W16, desc, &|s, i| c08::kb4::build_and_run(s, i), &mut rng, out)
+                }
+            }
         }
         _ => {
             let (depth, pre, expose) = (rng.range(1, 6), rng.range(0, 2), rng.chance(3, 4));
             let b = c10::raw_merkle_build_kb4(depth, pre, expose, hs).map_err(|e| e.1);
-            (b, Poseidon2Config::KOALA_BEAR_D4_W16, json!({"depth": depth, "pre": pre, "expose_index": expose}))
+            let desc = json!({"depth": depth, "pre": pre, "expose_index": expose});
+            npo_cells_core::<crate::uni::Kb4>(ctx, idx, family, b, Poseidon2Config::KOALA_BEAR_D4_W16, desc, &|_, _| Err("raw".into()), &mut rng, out)
         }
-    };
+    }
+}
+
+#[allow(clippy::too_many_arguments, clippy::type_complexity)]
+fn npo_cells_core<U: CircuitUni>(
+    ctx: &Ctx,
+    idx: u64,
+    family: &str,
+    built: Result<(Circuit<U::EF>, p3_circuit::tables::Traces<U::EF>), String>,
+    p2cfg: p3_circuit::ops::Poseidon2Config,
+    desc: Value,
+    rebuild: &dyn Fn(&crate::props::c08::MmcsShape, usize) -> Result<(Circuit<U::EF>, p3_circuit::tables::Traces<U::EF>), String>,
+    rng: &mut Rng,
+    out: &mut RunOut,
+) {
+    use crate::props::c08;
+    use p3_circuit::ops::{NpoTypeId, Poseidon2Trace};
     let Ok((circuit, traces)) = built else {
         out.count("npo_cells_circuit_not_buildable");
         return;
@@ -692,7 +720,7 @@ pub fn npo_cells_run(ctx: &Ctx, idx: u64, out: &mut RunOut) {
         out.count("npo_cells_honest_rejected_skipped");
         return;
     }
-    let Some(p2) = traces.non_primitive_trace::<Poseidon2Trace<BF>>(&NpoTypeId::poseidon2_perm(p2cfg)) else {
+    let Some(p2) = traces.non_primitive_trace::<Poseidon2Trace<U::BF>>(&NpoTypeId::poseidon2_perm(p2cfg)) else {
         out.count("npo_cells_no_poseidon_trace");
         return;
     };
@@ -762,11 +790,11 @@ pub fn npo_cells_run(ctx: &Ctx, idx: u64, out: &mut RunOut) {
         }
         let cell = &mut forged[t].values[r * w + c];
         let new = if t == 1 {
-            if *cell == BF::ZERO { BF::ONE } else { BF::ZERO }
+            if *cell == U::BF::ZERO { U::BF::ONE } else { U::BF::ZERO }
         } else if two {
-            BF::TWO
+            U::BF::TWO
         } else {
-            *cell + BF::ONE
+            *cell + U::BF::ONE
         };
         if new == *cell {
             continue;
@@ -774,7 +802,7 @@ pub fn npo_cells_run(ctx: &Ctx, idx: u64, out: &mut RunOut) {
         *cell = new;
         let shared = Arc::new(forged);
         let s2 = shared.clone();
-        let tamper: Tamper<BF> = Box::new(move |m| {
+        let tamper: Tamper<U::BF> = Box::new(move |m| {
             for (dst, src) in m.iter_mut().zip(s2.iter()) {
                 if dst.values.len() == src.values.len() {
                     dst.values.copy_from_slice(&src.values);
@@ -790,6 +818,10 @@ pub fn npo_cells_run(ctx: &Ctx, idx: u64, out: &mut RunOut) {
         out.steps += 1;
         let (class, row_kind) = if t == 1 {
             ("direction_input", "public")
+        } else if t != pt && mats[t].values[r * mats[t].width()..(r + 1) * mats[t].width()].iter().all(|x| *x == U::BF::ZERO) {
+            // an all-zero recompose row is (or is indistinguishable from) a padding row: no
+            // multiplicity, no constraint, its cells are don't-cares
+            ("recompose", "padding")
         } else if t == pt {
             (class_of(c), if r >= n_ops { "padding" } else if p2.operations[r].merkle_path && p2.operations[r].new_start { "merkle_start" } else if p2.operations[r].merkle_path { "merkle" } else { "sponge" })
         } else {
@@ -811,7 +843,8 @@ pub fn npo_cells_run(ctx: &Ctx, idx: u64, out: &mut RunOut) {
             && family != "raw";
         let must_reject = match (class, two) {
             ("bit" | "bit2", true) => true,
-            ("perm" | "bit_x_bit2" | "recompose" | "direction_input", _) => true,
+            ("recompose", _) => row_kind != "padding",
+            ("perm" | "bit_x_bit2" | "direction_input", _) => true,
             (_, false) => (row_kind == "merkle" || row_kind == "merkle_start") && !isolated_sum,
             _ => false,
         };
@@ -838,10 +871,10 @@ pub fn npo_cells_run(ctx: &Ctx, idx: u64, out: &mut RunOut) {
             let path_bits = (max_h.next_power_of_two().trailing_zeros() as usize).saturating_sub(shape.cap_height);
             if path_bits > 0 {
                 let other = (ix as usize) ^ (1 + rng.usize_below((1usize << path_bits) - 1).min((1usize << path_bits) - 2));
-                let b2 = crate::core::pool::observe(|| if family == "a4" { c08::kb4a4::build_and_run(&shape, other % max_h) } else { c08::kb4::build_and_run(&shape, other % max_h) }).unwrap_or_else(Err);
+                let b2 = crate::core::pool::observe(|| rebuild(&shape, other % max_h)).unwrap_or_else(Err);
                 if let Ok((c2, t2)) = b2 {
                     if let Ok((k2, _)) = pipe::keygen::<U>(&c2, &cfg) {
-                        if let (Ok(Ok(m2)), Some(p2b)) = (crate::core::pool::observe(|| capture_matrices::<U>(&k2, &t2, &cfg)), t2.non_primitive_trace::<Poseidon2Trace<BF>>(&NpoTypeId::poseidon2_perm(p2cfg))) {
+                        if let (Ok(Ok(m2)), Some(p2b)) = (crate::core::pool::observe(|| capture_matrices::<U>(&k2, &t2, &cfg)), t2.non_primitive_trace::<Poseidon2Trace<U::BF>>(&NpoTypeId::poseidon2_perm(p2cfg))) {
                             if m2.len() == mats.len() && m2[pt].values.len() == mats[pt].values.len() && p2b.operations.len() == n_ops {
                                 let mut forged = mats.clone();
                                 let w = forged[pt].width();
@@ -855,7 +888,7 @@ pub fn npo_cells_run(ctx: &Ctx, idx: u64, out: &mut RunOut) {
                                 if moved > 0 && forged[pt].values != mats[pt].values {
                                     let shared = Arc::new(forged);
                                     let s2 = shared.clone();
-                                    let tamper: Tamper<BF> = Box::new(move |m| {
+                                    let tamper: Tamper<U::BF> = Box::new(move |m| {
                                         for (dst, src) in m.iter_mut().zip(s2.iter()) {
                                             if dst.values.len() == src.values.len() {
                                                 dst.values.copy_from_slice(&src.values);
